@@ -22,7 +22,8 @@ type secRef struct {
 	Type   string
 	HasTyp bool
 	ID     string
-	Sect   int // index of the w:sectPr in document order
+	Sect   int  // index of the w:sectPr in document order
+	Doc    bool // the w:sectPr is the document's: a direct child of w:body (or the main part has no such w:sectPr at all)
 }
 
 // sectionRefs lists the references of every w:sectPr of the main part (document order) and
@@ -30,12 +31,16 @@ type secRef struct {
 func sectionRefs(root *canon.Node) (refs []secRef, bodySects int) {
 	body := root.Kid(canon.W, "body")
 	bodySects = len(body.KidsNamed(canon.W, "sectPr"))
+	bodyLevel := map[*canon.Node]bool{}
+	for _, sp := range body.KidsNamed(canon.W, "sectPr") {
+		bodyLevel[sp] = true
+	}
 	for si, sp := range root.All(canon.W, "sectPr") {
 		for _, k := range sp.Kids {
 			if k.Space != canon.W || (k.Local != "headerReference" && k.Local != "footerReference") {
 				continue
 			}
-			r := secRef{Footer: k.Local == "footerReference", Sect: si}
+			r := secRef{Footer: k.Local == "footerReference", Sect: si, Doc: bodySects == 0 || bodyLevel[sp]}
 			r.Type, r.HasTyp = k.Attr(canon.W, "type")
 			r.ID = k.A(canon.R, "id")
 			if r.ID == "" { // prefix problems are C01's business: fall back on the local name
